@@ -22,19 +22,22 @@ FNS = ["t_arith", "t_shift", "t_shift32", "t_u8", "t_cast", "t_castbool", "t_div
        "t_matchstmt", "t_gen", "t_rev", "t_structlit", "h_iter", "t_incl", "h_bytes", "t_bytes",
        "h_fee", "h_lock", "h_verify",
        # phase 4
-       "t_ret_for", "t_ret_loop", "t_ret_while", "t_try_loop", "t_assert", "t_rangec"]
+       "t_ret_for", "t_ret_loop", "t_ret_while", "t_try_loop", "t_assert", "t_rangec",
+       # phase 5
+       "h_kfm"]
 METHODS = [("Nt", "low"), ("Nt", "opt"), ("Pt", "cap"), ("Pt", "off")]
 HELPERS = [("Dn", "from_num"), ("Dn", "to_num"), ("Rec", "mk"), ("Sip", "new"), ("Sip", "round"), ("Sip", "hash"),
            ("Sip", "digest"), ("Sip", "bump")]      # translated, exercised through the `t_*` functions
-SKIP_EVAL = {"h_recs", "h_gen", "h_bytes", "h_iter", "h_fee", "h_lock", "h_verify"}                     # parameters / results that are not integers
+SKIP_EVAL = {"h_kfm", "h_recs", "h_gen", "h_bytes", "h_iter", "h_fee", "h_lock", "h_verify"}                     # parameters / results that are not integers
 WL = [Entry(F, None, f, f, "FnsSelftest", {1: 70}) for f in FNS] + \
      [Entry(F, t, m, f"{t}_{m}", "FnsSelftest") for t, m in METHODS + HELPERS] + \
      [Entry(F, "Hp", "node", "Hp_node", "FnsSelftest"),
       Entry(F, "Hp", "ext", "Hp_ext", "FnsSelftest", abstract=[("self.outside().len()", "olen", "usize")]),
       Entry(F, "Hp", "ext2", "Hp_ext2", "FnsSelftest"),      # inherits the abstracted parameter `olen`
-      Entry(F, None, "t_rec", "t_rec", "FnsSelftest", rec_fuel=70)]      # phase 4: direct recursion, fuel 70
+      Entry(F, None, "t_rec", "t_rec", "FnsSelftest", rec_fuel=70),
+      Entry(F, "Kf", "is_nrd", "Kf_is_nrd", "FnsSelftest"), Entry(F, "Kf", "weight", "Kf_weight", "FnsSelftest")]      # phase 4: direct recursion, fuel 70
 # `t_result` is compared through a hand-written Lean wrapper (its struct literal has an untranslatable field)
-EXTRA_HELPERS = [("Hp", "node"), ("Hp", "ext"), ("Hp", "ext2")]
+EXTRA_HELPERS = [("Hp", "node"), ("Hp", "ext"), ("Hp", "ext2"), ("Kf", "is_nrd"), ("Kf", "weight")]
 EDGES = [0, 1, 2, 3, 5, 7, 8, 31, 32, 63, 64, 65, 127, 128, 200, 255, 256, 65535, 65536, 2**31 - 1, 2**31,
          2**32 - 1, 2**32, 2**63 - 1, 2**63, 2**64 - 2, 2**64 - 1]
 
@@ -107,6 +110,7 @@ def main():
             "⟨Kf.Nrd (r.getD 0 0 ^^^ r.getD 1 0) 7⟩, ⟨Kf.Locked 5 (r.getD 1 0 % 777)⟩]")
     WT_L = ("(match r.getD 0 0 % 3 with | 0 => Wt.AsTx | 1 => Wt.AsLimited (r.getD 1 0) | _ => Wt.NoLimit)")
     for name, k, lean_expr in [("t_kf", 2, f"(h_fee {KF_L}, h_lock {KF_L})"),
+                               ("t_kfm", 2, f"(h_kfm {KF_L} (r.getD 1 0))"),
                                ("t_wt", 3, f"(match h_verify {WT_L} (r.getD 2 0) 40000 with | some () => 1 | none => 0)"),
                                ("t_result", 3, "(unwrapD (Hp_node [r.getD 0 0, r.getD 1 0, r.getD 2 0, (r.getD 0 0) ^^^ (r.getD 1 0)] "
                                 "((r.getD 2 0) ||| 255) (r.getD 0 0) ((r.getD 1 0) &&& 1))) ^^^ Hp_ext (r.getD 2 0) 3 ^^^ "
@@ -153,6 +157,10 @@ def main():
           'Kern { features: Kf::Coinbase, excess: String::new() }, Kern { features: Kf::Locked { fee: b, lock: a % 1000 }, excess: String::new() }, '
           'Kern { features: Kf::Nrd { fee: a ^ b, rel: 7 }, excess: String::new() }, '
           'Kern { features: Kf::Locked { fee: 5, lock: b % 777 }, excess: String::new() }]; (h_fee(&ks), h_lock(&ks)) }',
+          'fn t_kfm(a: u64, b: u64) -> u64 { let ks = vec![Kern { features: Kf::Plain { fee: a }, excess: String::new() }, '
+          'Kern { features: Kf::Coinbase, excess: String::new() }, Kern { features: Kf::Locked { fee: b, lock: a % 1000 }, excess: String::new() }, '
+          'Kern { features: Kf::Nrd { fee: a ^ b, rel: 7 }, excess: String::new() }, '
+          'Kern { features: Kf::Locked { fee: 5, lock: b % 777 }, excess: String::new() }]; h_kfm(&ks, b) }',
           'fn t_wt(a: u64, b: u64, c: u64) -> u64 { let w = match a % 3 { 0 => Wt::AsTx, 1 => Wt::AsLimited(b), _ => Wt::NoLimit }; '
           'match h_verify(w, c, 40000) { Ok(()) => 1, Err(_) => 0 } }',
           'fn main() {', '    std::panic::set_hook(Box::new(|_| {}));'] + rs_body + ['}']
